@@ -358,6 +358,40 @@ pub fn run(ctx: &Ctx) -> i32 {
                 }
             }
         }
+        // the depth limits, with every kind of count (the smallest, zero-padded, the largest) and in
+        // every place an option may stand: the scanner cannot limit the depth, so the line is
+        // refused or the limit is carried in the returned options - a program for the whole tree
+        // with the limit dropped is never the answer.  (-mindepth 0 limits nothing: not judged.)
+        {
+            let mut d = Acc::new();
+            for (opt, name) in [("-maxdepth", "MaxDepth"), ("-mindepth", "MinDepth")] {
+                for n in ["0", "00", "1", "01", "2", "7", "10", "255", "65536", "4294967295"] {
+                    if opt == "-mindepth" && n.trim_start_matches('0').is_empty() {
+                        continue;
+                    }
+                    for template in ["{o} -name a -print", "-name a {o} -print", "-name a -print {o}", "{o}", "-depth {o} -name a", "{o} -depth", "( -name a {o} ) -print", "! {o}", "-name a -o {o}", "-name a , {o}", "{o} -threads 2 -print0", "-fprint f {o}"] {
+                        let text = template.replace("{o}", &format!("{opt} {n}"));
+                        d.states += 1;
+                        d.transitions += 1;
+                        if let crate::subject::P::Ok(o, e) = crate::subject::parse_real(&text) {
+                            d.validated += 1;
+                            let shown = format!("{o:?}").to_lowercase().replace('_', "");
+                            if shown.contains("maxdepth") || shown.contains("mindepth") {
+                                continue; // the options returned have a place for the limit (C13 judges its value)
+                            }
+                            if let C::Ok(_) = compile_render(&e, &o, "/dev") {
+                                d.violate(Violation::new(
+                                    format!("C12:inexpressible-construct-compiled:{name}:from-text"),
+                                    format!("{text:?} parses to {} with options {o:?} and compiles: the depth limit is dropped", conv::expr(&e).show()),
+                                    json!({"kind": "text-depth", "input": text}),
+                                ));
+                            }
+                        }
+                    }
+                }
+            }
+            acc = acc.merge(d);
+        }
         let mut t = Acc::new();
         for text in &texts {
             let Spec::Accept { tree, .. } = speclib::textspec::parse(text) else { continue };
@@ -462,6 +496,16 @@ pub fn replay(w: &Value) -> Vec<Violation> {
             let bad = inexpressible(&tree);
             if !bad.is_empty() && matches!(compile_render(&e, &o, "/dev"), C::Ok(_)) {
                 return vec![Violation::new(format!("C12:inexpressible-construct-compiled:{}:from-text", bad[0]), format!("{text:?} compiles"), w.clone())];
+            }
+        }
+        return vec![];
+    }
+    if w["kind"] == "text-depth" {
+        let text = w["input"].as_str().unwrap_or("");
+        if let crate::subject::P::Ok(o, e) = crate::subject::parse_real(text) {
+            let shown = format!("{o:?}").to_lowercase().replace('_', "");
+            if !shown.contains("maxdepth") && !shown.contains("mindepth") && matches!(compile_render(&e, &o, "/dev"), C::Ok(_)) {
+                return vec![Violation::new("C12:inexpressible-construct-compiled:depth-limit:from-text", format!("{text:?} compiles with the depth limit dropped"), w.clone())];
             }
         }
         return vec![];
